@@ -258,6 +258,11 @@ def run_job(pid, job, tier, seed, hb, runner_exe, tag=""):
     os.makedirs(out)
     exe = hb
     env = dict(GOENV, VERIF_DIR=VERIF, VERIF_BUILD=BUILD, VERIF_REPO=REPO)
+    if job.get("binary"):
+        okb, ob, binpath = build_binary()
+        if not okb:
+            return {"name": name, "error": "the binary does not build: " + ob[-2000:]}
+        env["VERIF_BIN"] = binpath
     if job.get("race"):
         ok, o, exe = build_harness(race=True)
         if not ok:
